@@ -42,31 +42,124 @@ def _is_projection(st: ast.stmt, name: str) -> bool:
     return False
 
 
+def _projection_of(st: ast.stmt):
+    """The variable a statement projects onto the non-negative orthant (x *= x > 0, x = np.maximum(x, 0), x = x * (x > 0), x = np.clip(x, 0, None)),
+    with in_place = True for the forms that change the array itself."""
+    if isinstance(st, ast.AugAssign) and isinstance(st.target, ast.Name) and isinstance(st.op, ast.Mult):
+        name = st.target.id
+        t = ast.unparse(st.value).replace(" ", "")
+        if t in (f"{name}>0", f"({name}>0)", f"0<{name}", f"{name}>=0"):
+            return name, True
+    if isinstance(st, ast.Assign) and len(st.targets) == 1 and isinstance(st.targets[0], ast.Name):
+        name = st.targets[0].id
+        t = ast.unparse(st.value).replace(" ", "")
+        if t in (f"np.maximum({name},0)", f"np.maximum(0,{name})", f"{name}*({name}>0)", f"({name}>0)*{name}", f"np.clip({name},0,None)"):
+            return name, False
+    return None
+
+
 def proj(prog: Program, res: Result) -> None:
+    """Every line-search candidate (a freshly computed row that reaches the objective or the returned row) is projected onto the
+    non-negative orthant before anything else reads it.  Forward walk over the structured body: a candidate is RAW from its creation until a
+    projection of one of its names; plain copies share the state (and, for in-place projections, the object)."""
     fi = prog.func("cp_apr.tt_linesearch_prowsubprob")
-    rets = [n for n in ast.walk(fi.node) if isinstance(n, ast.Return) and isinstance(n.value, ast.Tuple) and n.value.elts]
-    name = rets[0].value.elts[0].id if rets and isinstance(rets[0].value.elts[0], ast.Name) else "model_new"
+    fn = fi.node
+    # names that reach the returned row or the objective's row argument, closed under plain copies
+    relevant = set()
+    for n in ast.walk(fn):
+        if isinstance(n, ast.Return) and isinstance(n.value, ast.Tuple) and n.value.elts and isinstance(n.value.elts[0], ast.Name):
+            relevant.add(n.value.elts[0].id)
+        if isinstance(n, ast.Call) and (dotted(n.func) or "").split(".")[-1] == "tt_loglikelihood_row" and len(n.args) >= 3 \
+                and isinstance(n.args[2], ast.Name):
+            relevant.add(n.args[2].id)
+    changed = True
+    while changed:
+        changed = False
+        for n in ast.walk(fn):
+            if isinstance(n, ast.Assign) and len(n.targets) == 1 and isinstance(n.targets[0], ast.Name) and isinstance(n.value, ast.Name) \
+                    and n.targets[0].id in relevant and n.value.id not in relevant and n.value.id not in fi.params():
+                relevant.add(n.value.id)
+                changed = True
+    origins: Dict[int, ast.stmt] = {}
+    status: Dict[int, str] = {}
+
+    def reads(st: ast.AST, name: str) -> bool:
+        return any(isinstance(x, ast.Name) and x.id == name and isinstance(x.ctx, ast.Load) for x in ast.walk(st))
+
+    def use(state, st, node=None):
+        for v, raw in list(state.items()):
+            if raw and reads(node if node is not None else st, v):
+                for o in raw:
+                    if status.get(o) != "bad":
+                        status[o] = "bad"
+                        badwhere[o] = st
+
+    badwhere: Dict[int, ast.stmt] = {}
+
+    def walk(body: List[ast.stmt], state: Dict[str, frozenset]) -> Dict[str, frozenset]:
+        for st in body:
+            pr = _projection_of(st)
+            if pr is not None and pr[0] in state:
+                name, in_place = pr
+                done = state.get(name, frozenset())
+                for o in done:
+                    if status.get(o) == "pending":
+                        status[o] = "ok"
+                state[name] = frozenset()
+                if in_place:
+                    for v in list(state):
+                        if state[v] & done:
+                            state[v] = state[v] - done
+                continue
+            if isinstance(st, ast.Assign) and len(st.targets) == 1 and isinstance(st.targets[0], ast.Name):
+                t = st.targets[0].id
+                if isinstance(st.value, ast.Name) and st.value.id in state:
+                    state[t] = state[st.value.id]          # plain copy: same state
+                    continue
+                use(state, st, st.value)
+                if t in relevant and not isinstance(st.value, (ast.Name, ast.Constant)):
+                    origins[id(st)] = st
+                    status[id(st)] = "pending"
+                    state[t] = frozenset({id(st)})
+                elif t in state:
+                    state[t] = frozenset()
+                continue
+            if isinstance(st, ast.If):
+                use(state, st, st.test)
+                s1 = walk(st.body, dict(state))
+                s2 = walk(st.orelse, dict(state))
+                for k_ in set(s1) | set(s2):
+                    state[k_] = s1.get(k_, frozenset()) | s2.get(k_, frozenset())
+                continue
+            if isinstance(st, (ast.While, ast.For)):
+                use(state, st, st.test if isinstance(st, ast.While) else st.iter)
+                s1 = walk(st.body, dict(state))
+                for k_ in s1:
+                    state[k_] = state.get(k_, frozenset()) | s1[k_]
+                s1 = walk(st.orelse, dict(state))
+                for k_ in s1:
+                    state[k_] = state.get(k_, frozenset()) | s1[k_]
+                continue
+            if isinstance(st, (ast.With, ast.Try)):
+                walk(st.body, state)
+                continue
+            use(state, st)
+        return state
+
+    walk(fn.body, {})
     k = 0
-
-    def visit(body: List[ast.stmt]):
-        nonlocal k
-        for i, st in enumerate(body):
-            if isinstance(st, ast.Assign) and isinstance(st.targets[0], ast.Name) and st.targets[0].id == name and not _is_projection(st, name):
-                k += 1
-                desc = f"candidate `{name} = {ast.unparse(st.value)[:50]}` is projected onto the non-negative orthant before use"
-                nxt = body[i + 1] if i + 1 < len(body) else None
-                if nxt is not None and _is_projection(nxt, name):
-                    res.ok("PROJ", fi.short, desc, prog.loc(fi, st))
-                else:
-                    res.bad("PROJ", fi.short, desc, prog.loc(fi, st),
-                            f"the next statement is `{ast.unparse(nxt)[:60] if nxt is not None else 'end of block'}`: a step with negative entries "
-                            "is evaluated / returned, so factor entries can become negative")
-            for f in ("body", "orelse", "finalbody"):
-                sub = getattr(st, f, None)
-                if isinstance(sub, list) and sub and isinstance(sub[0], ast.stmt):
-                    visit(sub)
-
-    visit(fi.node.body)
+    for o, st in sorted(origins.items(), key=lambda kv: (kv[1].lineno, kv[1].col_offset)):
+        k += 1
+        desc = f"line-search candidate #{k} (`{ast.unparse(st.value)[:50]}`) is projected onto the non-negative orthant before use"
+        if status[o] == "ok":
+            res.ok("PROJ", fi.short, desc, prog.loc(fi, st))
+        elif status[o] == "bad":
+            w = badwhere[o]
+            res.bad("PROJ", fi.short, desc, prog.loc(fi, st),
+                    f"`{ast.unparse(w)[:60]}` reads it before any projection: a step with negative entries is evaluated / returned, "
+                    "so factor entries can become negative")
+        else:
+            res.bad("PROJ", fi.short, desc, prog.loc(fi, st), "it is never projected: a step with negative entries can be returned")
     if k == 0:
         res.undecided("PROJ", fi.short, "line-search candidates are projected", prog.loc(fi), "no candidate assignment found")
 
